@@ -20,6 +20,20 @@
 #include "core/Macros.h"
 #include "core/print_error.h"
 
+// Every .if/.ifdef/.ifndef that is open costs a recursion of assemble().
+#define MAX_NESTED_IFS 128
+
+static int check_nested_ifs(AsmContext *asm_context)
+{
+  if (asm_context->ifdef_count > MAX_NESTED_IFS)
+  {
+    print_error(asm_context, "Conditionals nested too deep");
+    return -1;
+  }
+
+  return 0;
+}
+
 int ifdef_ignore(AsmContext *asm_context)
 {
   char token[TOKENLEN];
@@ -129,6 +143,8 @@ int parse_ifdef(AsmContext *asm_context, int ifndef)
 
   asm_context->ifdef_count++;
 
+  if (check_nested_ifs(asm_context) != 0) { return -1; }
+
   asm_context->parsing_ifdef = 1;
   token_type = tokens_get(asm_context, token, TOKENLEN);
   asm_context->parsing_ifdef = 0;
@@ -161,6 +177,8 @@ int parse_if(AsmContext *asm_context)
   int num;
 
   asm_context->ifdef_count++;
+
+  if (check_nested_ifs(asm_context) != 0) { return -1; }
 
   asm_context->parsing_ifdef = 1;
   num = eval_ifdef_expression(asm_context);
